@@ -140,7 +140,28 @@ let handle kind a =
              dec_of_n v.v_flags; id v.v_rid; id v.v_pos; opt_s v.v_mapq; id v.v_mrid; id v.v_mpos;
              dec_of_z v.v_tlen;
              p (function Ok c -> fmt_cigar c | Err _ -> "Err") v.v_cigar;
-             p hex_of_bytes v.v_seq; p hex_of_bytes v.v_qual; p hex_of_bytes v.v_data_raw ])))
+             p hex_of_bytes v.v_seq; p hex_of_bytes v.v_qual; p hex_of_bytes v.v_data_raw;
+             (* Sequence::len / get at the probe indices, QualityScores::iter *)
+             (let body = bytes_of_hex a.(0) in
+              match lzp_seq_len body with
+              | None -> "P"
+              | Some n ->
+                  let n = int_of_n n in
+                  let probes = List.filter (fun i -> i >= 0) [0; 1; 2; n - 1; n; n + 1] in
+                  dec_of_n (n_of_int n) ^ ":" ^ String.concat "," (List.map (fun i ->
+                    match lzp_seq_get body (n_of_int i) with
+                    | None -> "P" | Some None -> "-" | Some (Some b) -> dec_of_n b) probes));
+             p hex_of_bytes v.v_qual;
+             (* Data::iter (fields before the first error) and Data::get of every tag seen, CG, ZZ *)
+             (let body = bytes_of_hex a.(0) in
+              match lzp_data body with
+              | None -> "P"
+              | Some (fs, e) ->
+                  let tags = List.map fst fs @ [(n_of_int 67, n_of_int 71); (n_of_int 90, n_of_int 90)] in
+                  fmt_data fs ^ (if e then "!Err" else "") ^ " " ^
+                  String.concat "," (List.map (fun t ->
+                    match data_get (fs, e) t with
+                    | None -> "-" | Some (Err _) -> "Err" | Some (Ok x) -> fmt_val x) tags)) ])))
   | "sub" ->
       let sq = bytes_of_hex a.(0) in
       let n = List.length sq in
